@@ -272,11 +272,11 @@ Proof.
     rewrite Hk. reflexivity.
   - unfold sweep, sweep_freqs.
     pose proof (sweep_loop_last pin (clamp0 s) (clamp0 e) (Z.max 1 (c_int steps))
-                 (inject_Z (c_ulong neg dq) / inject_Z (Z.max 1 (c_int steps)))%Q
+                 (inject_Z (f32z (c_ulong neg dq)) / inject_Z (Z.max 1 (c_int steps)))%Q
                  (Z.to_nat (Z.max 1 (c_int steps))) 0%nat st) as Hl.
     change (Z.of_nat 0) with 0 in Hl.
     destruct (sweep_loop pin (clamp0 s) (clamp0 e) (Z.max 1 (c_int steps))
-                (inject_Z (c_ulong neg dq) / inject_Z (Z.max 1 (c_int steps)))%Q
+                (inject_Z (f32z (c_ulong neg dq)) / inject_Z (Z.max 1 (c_int steps)))%Q
                 (Z.to_nat (Z.max 1 (c_int steps))) 0 st) as [st1 e1].
     cbn [fst quiet b_last] in *. exact Hl.
   - unfold melody, score in *. destruct (tlookup name tbl) as [[t0 seq]|]; [|reflexivity].
@@ -438,12 +438,12 @@ Section Bounded.
     - apply andb_true_iff in Ho as [Hs He]. apply qle_true in Hs. apply qle_true in He.
       cbn [dstep]. unfold sweep.
       destruct (sweep_loop_le (clamp0 s) (clamp0 e) (Z.max 1 (c_int steps))
-                  (inject_Z (c_ulong neg dq) / inject_Z (Z.max 1 (c_int steps)))%Q
+                  (inject_Z (f32z (c_ulong neg dq)) / inject_Z (Z.max 1 (c_int steps)))%Q
                   (Z.to_nat (Z.max 1 (c_int steps))) (clamp0_le _ Hs) (clamp0_le _ He) ltac:(lia)
                   0%nat st ltac:(lia) Hl) as [H1 L1].
       change (Z.of_nat 0) with 0 in *.
       destruct (sweep_loop pin (clamp0 s) (clamp0 e) (Z.max 1 (c_int steps))
-                  (inject_Z (c_ulong neg dq) / inject_Z (Z.max 1 (c_int steps)))%Q
+                  (inject_Z (f32z (c_ulong neg dq)) / inject_Z (Z.max 1 (c_int steps)))%Q
                   (Z.to_nat (Z.max 1 (c_int steps))) 0 st) as [st1 e1].
       cbn [fst snd quiet b_last] in *. split; [fb|exact L1].
     - cbn [dstep]. unfold melody, score in *. destruct (tlookup name tbl) as [[t0 seq]|] eqn:El.
@@ -688,8 +688,9 @@ Proof.
   - cbn. apply Qle_refl.
   - apply andb_true_iff in H as [Hon Hoff].
     rewrite (beep_duration_general pin neg emitter_melodies st f on off times Hon Hoff). apply Qle_refl.
-  - destruct (sweep_protocol pin neg emitter_melodies st s e d steps) as (_ & _ & _ & _ & _ & _ & _ & Hd & _).
-    destruct (Hd H) as [_ Hq]. exact Hq.
+  - apply andb_true_iff in H as [H Hsmall]. apply Z.ltb_lt in Hsmall.
+    destruct (sweep_protocol pin neg emitter_melodies st s e d steps) as (_ & _ & _ & _ & _ & _ & _ & Hd & _).
+    destruct (Hd H Hsmall) as [_ Hq]. exact Hq.
   - cbn [dstep]. unfold melody, score in *.
     destruct (tlookup name emitter_melodies) as [[t0 seq]|] eqn:El; [|cbn; apply Qle_refl].
     rewrite melody_loop_events. unfold delay_sum. rewrite delays_play_score.
@@ -784,14 +785,14 @@ Qed.
 (* C16_sweep_delays: every step waits floor(duration) / steps ms (integer division; delay(0) when that is
    0 but the duration is not), nothing at all for a zero duration *)
 Lemma sweep_delays : forall pin neg tbl st s e d steps,
-  qle q0 d = true ->
+  qle q0 d = true -> Qfloor d < 2 ^ 24 ->
   let n := Z.max 1 (c_int steps) in
   delays (snd (dstep pin neg tbl st (Sweep s e d steps))) =
   if 0 <? Qfloor d then repeat (Qfloor d / n) (Z.to_nat n) else [].
 Proof.
-  intros pin neg tbl st s e d steps Hd n.
+  intros pin neg tbl st s e d steps Hd Hsmall n.
   destruct (c_ulong_nonneg neg d Hd) as [Ed Pd].
-  cbn [dstep]. unfold sweep. fold n. rewrite Ed.
+  cbn [dstep]. unfold sweep. fold n. rewrite Ed, (f32z_small _ Hsmall).
   pose proof (sweep_loop_delay_list pin (clamp0 s) (clamp0 e) n (inject_Z (Qfloor d) / inject_Z n)%Q
                (Z.to_nat n) 0 st) as Hl.
   destruct (sweep_loop pin (clamp0 s) (clamp0 e) n (inject_Z (Qfloor d) / inject_Z n)%Q (Z.to_nat n) 0 st)
